@@ -231,6 +231,27 @@ fn c13_jobs(tier: Tier) -> Vec<SeqJob> {
                         epilogue: true,
                     });
                 }
+                // Pipe without an event listener (another code path in resize / clear / insert): differential
+                // against the same sequences with a listener, pass 1 only.
+                let mut c = cfg(algo, capacity, shards, true, false);
+                c.no_listener = true;
+                jobs.push(SeqJob {
+                    property: "C13",
+                    owned: vec!["L.", "X."],
+                    cfg: c,
+                    universe: vec![1, 2, 3],
+                    prologue: vec![],
+                    // (the driver chooses the origin value of a fetch from its ledger, which has no events to
+                    // follow here: fetches are left to the jobs with a listener)
+                    alphabet: c13_alphabet(capacity).into_iter().filter(|o| !matches!(o, Op::Fetch { .. })).collect(),
+                    depth1: d1,
+                    depth2: 0,
+                    max_states: 0,
+                    resize_any_depth: if tier == Tier::Quick { 2 } else { 3 },
+                    resize_last_depth: if tier == Tier::Quick { 3 } else { 4 },
+                    resize2_depth: 0,
+                    epilogue: true,
+                });
             }
         }
     }
@@ -321,6 +342,37 @@ fn c14_jobs(tier: Tier) -> Vec<SeqJob> {
                     resize_any_depth: if tier == Tier::Quick { 2 } else { 3 },
                     resize_last_depth: if tier == Tier::Quick { 3 } else { 4 },
                     resize2_depth: if tier == Tier::Quick { 2 } else { 4 },
+                    epilogue: false,
+                });
+            }
+        }
+    }
+    // States reached *through* a resize (capacity-derived parameters of LRU / S3-FIFO / w-TinyLFU are
+    // recomputed there): the cache is filled, resized down or up, and then every sequence over a reduced
+    // alphabet follows. One resize per execution (see the budget note on `SeqJob`).
+    let post_caps: Vec<usize> = if tier == Tier::Quick { vec![4] } else { vec![3, 4, 6] };
+    for algo in c14_algos(tier) {
+        if matches!(algo, Algo::Fifo | Algo::Sieve) {
+            continue;
+        }
+        for &capacity in post_caps.iter() {
+            let universe = vec![1, 2, 3, 4, 5, 6];
+            for target in [capacity - 1, capacity + 2] {
+                let mut prologue = prologues(capacity, &universe)[1].clone();
+                prologue.push(Op::Resize { c: target });
+                jobs.push(SeqJob {
+                    property: "C14",
+                    owned: vec!["A.", "P.", "X."],
+                    cfg: cfg(algo, capacity, 1, false, true),
+                    universe: universe.clone(),
+                    prologue,
+                    alphabet: vec![ins(1, 1), ins(3, 1), ins(4, 1), ins(5, 2), ins_low(6, 1), ins_low(2, 1), get(2), get(3), rm(2)],
+                    depth1: if tier == Tier::Quick { 3 } else { 4 },
+                    depth2: 0,
+                    max_states: 0,
+                    resize_any_depth: 0,
+                    resize_last_depth: 0,
+                    resize2_depth: 0,
                     epilogue: false,
                 });
             }
